@@ -179,6 +179,110 @@ def rawput_case(exe, it, run, stats):
             w.close(kill=True)
 
 
+def rawget_case(exe, it, run, stats):
+    """a libcoap client downloads a body from a server that is not libcoap, which serves Block2
+    without (or with) Size2 and with or without an ETag, loss-free: the requesting application
+    gets the exact body once (single-body mode) or blocks that tile it"""
+    r = common.rng("c09-rawget-%d" % it)
+    szx = r.choice([0, 0, 1, 2, 4, 6])
+    bs = 16 << szx
+    nblk = r.choice([2, 2, 3, 3, 5, 9, 20])
+    blen = (nblk - 1) * bs + r.choice([1, bs // 2, bs - 1, bs])
+    size2 = r.choice(["never", "never", "first", "all"])
+    etag = r.choice([None, None, b"\x11\x22"])
+    single = r.random() < 0.7
+    typ = r.choice([0, 0, 1])
+    body = gen_body(r.randint(1, 10 ** 6), blen)
+    tok = bytes([0xFD, r.getrandbits(8)])
+    server = "10.0.7.%d:5683" % (1 + it % 200)
+    w = world.World(exe, seed=r.getrandbits(30))
+    sim = world.Sim(w, latency=2)
+    witness = {"kind": "rawget", "item": it, "szx": szx, "body_len": blen, "size2": size2,
+               "etag": bool(etag), "single_body": single, "type": typ, "script": w.script}
+    try:
+        sim.cmd("fullpayload 1")
+        sim.add_node(0, block_mode=3 if single else 1)
+        served = []
+
+        def serve(sm, frm, to, data):
+            try:
+                m = cw.decode(data, "udp")
+            except Exception:
+                return
+            if not 1 <= m["code"] <= 31:
+                return
+            b2 = [v for n, v in m["options"] if n == 23]
+            v = int.from_bytes(b2[0], "big") if b2 and b2[0] else 0
+            num, rszx = v >> 4, v & 7
+            use = min(rszx, szx) if b2 else szx
+            sz = 16 << use
+            off = num * sz
+            part = body[off:off + sz]
+            more = 1 if off + sz < blen else 0
+            ov = (num << 4) | (more << 3) | use
+            opts = [(23, ov.to_bytes((ov.bit_length() + 7) // 8, "big") if ov else b"")]
+            if etag:
+                opts.append((4, etag))
+            if size2 == "all" or (size2 == "first" and num == 0):
+                opts.append((28, blen.to_bytes((blen.bit_length() + 7) // 8, "big")))
+            served.append(num)
+            rsp = cw.msg(0x45, type=2 if m["type"] == 0 else 1, mid=m["mid"] if m["type"] == 0
+                         else 0x6000 + len(served), token=m["token"], options=opts, payload=part)
+            sm.inject(to, frm, cw.encode(rsp, "udp"))
+        sim.peers[server] = serve
+        sim.cmd("sess 0 0 udp %s" % server)
+        sim.cmd("send 0 0 type=%d code=1 token=%s opts=11=%s" % (typ, tok.hex(), b"rg".hex()))
+        sim.run(horizon=200000)
+        rsps = [e for e in sim.log if e["e"] == "rsp" and e.get("n") == 0]
+        stats["raw_downloads"] = stats.get("raw_downloads", 0) + 1
+        loc = "rawget/%s/size2-%s" % ("single-body" if single else "per-block", size2)
+        for e in rsps:
+            if e["tok"] != tok.hex():
+                run.violation("handler-saw-substituted-token/rsp/%s" % loc, witness,
+                              "response handler called with token %s" % e["tok"])
+        if single:
+            good = [e for e in rsps if e.get("plen", -1) == blen and e.get("poff", 0) == 0 and
+                    bytes.fromhex(e.get("phex", "")) == body]
+            bad = [e for e in rsps if e not in good]
+            if bad:
+                run.violation("delivered-bytes-differ-from-body/%s" % loc, witness,
+                              "the application was handed %r (length, offset, total) for a "
+                              "%d-byte body served in blocks of %d" %
+                              ([(e.get("plen"), e.get("poff"), e.get("ptot")) for e in bad],
+                               blen, bs))
+            if len(good) != 1:
+                run.violation("lossless-transfer-incomplete/%s" % loc, witness,
+                              "complete body delivered %d times; blocks served %r" %
+                              (len(good), served))
+            else:
+                stats["complete"] = stats.get("complete", 0) + 1
+        else:
+            cover = bytearray(blen)
+            okb = True
+            for e in rsps:
+                off, ln = e.get("poff", 0), max(e.get("plen", 0), 0)
+                if bytes.fromhex(e.get("phex", "")) != body[off:off + ln]:
+                    okb = False
+                for k in range(off, min(off + ln, blen)):
+                    cover[k] += 1
+            if not okb or any(c != 1 for c in cover):
+                run.violation("blocks-do-not-tile-body/%s" % loc, witness,
+                              "handler calls (length, offset): %r for a %d-byte body" %
+                              ([(e.get("plen"), e.get("poff")) for e in rsps], blen))
+            else:
+                stats["complete"] = stats.get("complete", 0) + 1
+        evs, rc, err = w.close()
+        if rc not in (0, None):
+            sg = common.sanitizer_signature(err) or "exit-rc%s" % rc
+            run.violation("teardown/rawget/%s" % sg, dict(witness, stderr=err[-3000:]), err[-1500:])
+        return ("rawget", szx, nblk, size2, bool(etag), single, typ)
+    except world.WorldCrash as e:
+        world.crash_violation(run, "C09/rawget", e, witness)
+    finally:
+        if not w.closed:
+            w.close(kill=True)
+
+
 def payload_ok(ev, body):
     """does the handler's view (offset, length, fnv) equal body[off:off+len]?"""
     ln, off = ev.get("plen", -1), ev.get("poff", 0)
@@ -554,8 +658,9 @@ def work(job):
     for it in items:
         w = None
         witness = {"kind": kind, "item": repr(it)[:200], "seed": common.seed()}
-        if kind in ("both", "rawput"):
-            sg = (both_case if kind == "both" else rawput_case)(exe, it, run, stats)
+        if kind in ("both", "rawput", "rawget"):
+            sg = {"both": both_case, "rawput": rawput_case,
+                  "rawget": rawget_case}[kind](exe, it, run, stats)
             if sg:
                 sigs.add(sg)
             n += 1
@@ -690,8 +795,8 @@ def main(tier):
                 "up to 64 KiB; max block size 16..1024 on either side, session MTU 64..1400, "
                 "single-body and per-block delivery, CON and NON, two concurrent transfers; "
                 "loss-free FETCH exchanges whose request and response bodies are both "
-                "block-wise; loss-free Block1 uploads by a sender that is not libcoap (Size1 on the "
-                "first block, on all, or never); loss-free transfers of 20+ blocks on every path MTU 64..330 (thorough ..1200); "
+                "block-wise; loss-free Block1 uploads by a sender, and Block2 downloads from a server, "
+                "that is not libcoap (Size1/Size2 on the first block, on all, or never); loss-free transfers of 20+ blocks on every path MTU 64..330 (thorough ..1200); "
                 "fault plans: none / every {deliver,drop,duplicate} assignment to the first N "
                 "datagrams of a 3-block transfer / random loss+duplication+delay; "
                 "distinct_nontrivial = distinct (kind, length class, modes, sizes, fault) tuples")
@@ -732,6 +837,8 @@ def main(tier):
     nraw = 160 if tier == "quick" else 4000
     for i in range(0, nraw, 8):
         jobs.append(("rawput", list(range(i, min(nraw, i + 8))), exe))
+    for i in range(0, nraw, 8):
+        jobs.append(("rawget", list(range(i, min(nraw, i + 8))), exe))
     nab = 24 if tier == "quick" else 600
     for i in range(0, nab, chunk):
         jobs.append(("abandon", list(range(i, min(nab, i + chunk))), exe))
@@ -751,6 +858,7 @@ def main(tier):
     run.require("incomplete_transfers_seen", stats.get("incomplete", 0), 10)
     run.require("large_calls", stats.get("large_calls", 0), 300)
     run.require("raw_uploads", stats.get("raw_uploads", 0), 100)
+    run.require("raw_downloads", stats.get("raw_downloads", 0), 100)
     return run.finish()
 
 
